@@ -113,7 +113,7 @@ pub struct SyncInfo {
 }
 
 fn bspec(i: usize, parent: Option<u16>, dt: u32) -> BlockSpec {
-    BlockSpec { parent, dt, gt: i % 2 == 0, creator: 0, miner: 1, txs: vec![], bad_tx: None, corrupt: None }
+    BlockSpec { parent, dt, gt: i % 2 == 0, creator: 0, miner: 1, txs: vec![], bad_tx: None, corrupt: None, back: None }
 }
 
 pub fn run_sync(case: &SyncCase) -> (Vec<(String, String)>, SyncInfo) {
